@@ -15,7 +15,7 @@ def gen_scenario(rnd, special=None):
         t = rnd.random()
         if t < 0.4:
             d = "t%d" % k; k += 1
-            steps.append(["bin", d, rnd.choice(["add", "sub", "mul", "mul"]), rnd.choice(names), rnd.choice(names + [3, -1])]); names.append(d)
+            steps.append(["bin", d, rnd.choice(["add", "sub", "mul", "mul"]), rnd.choice(names), rnd.choice(names + [3, -1, 0])]); names.append(d)
         elif t < 0.85:
             fn = special if (special and rnd.random() < 0.5) else rnd.choice(["sq", "madd", "pair", "nest"])
             ar = FN_ARITY.get(fn, 1)
